@@ -610,6 +610,10 @@ fn fold_idx((sel, raw): (u8, usize), len: usize) -> usize {
 }
 
 fn main() {
+    kvh::on_thread(real_main);
+}
+
+fn real_main() {
     let args = kvh::parse_args("C02", "c02");
     let mut ctx = Ctx::new(args.clone(), RULE);
     if let Some(p) = &args.replay {
